@@ -6,10 +6,12 @@ package interp
 
 import (
 	"fmt"
+	"go/token"
 	"go/types"
 	"math"
 	"math/big"
 	"os"
+	"strconv"
 	"strings"
 )
 
@@ -126,6 +128,31 @@ func init() {
 			}
 			r.mu.Unlock()
 			return nil
+		},
+		"verifFloatOf": func(fr *frame, args []value) value {
+			// the float behind a decimal string produced by strconv.FormatFloat
+			switch s := args[0].(type) {
+			case symStr:
+				if s.kind == "f64" {
+					return symF64{s.t}
+				}
+				panic(unsupported("verifFloatOf of an opaque string"))
+			case string:
+				f, err := strconv.ParseFloat(s, 64)
+				if err != nil {
+					panic(unsupported("verifFloatOf: " + err.Error()))
+				}
+				return f
+			}
+			panic(unsupported("verifFloatOf"))
+		},
+		// 8-decimal comparisons: exact under the engine (the float behind the rendered string is
+		// known), with half-a-unit tolerance in the native twin (which only sees the rendering)
+		"verifFloatEq8": func(fr *frame, args []value) value {
+			return binop(fr.i, token.EQL, nil, args[0], args[1])
+		},
+		"verifFloatGe8": func(fr *frame, args []value) value {
+			return binop(fr.i, token.GEQ, nil, args[0], args[1])
 		},
 		"verifTier": func(fr *frame, args []value) value { return fr.i.run.opts.Tier },
 		"verifAssertKnown": func(fr *frame, args []value) value {
